@@ -71,11 +71,13 @@ class Renderer(object):
         self.rnd, self.layout = rnd, layout
         self.out = []
         self.line = 1
-        self.nl = "\r\n" if layout.get("crlf") else "\n"
+        self.nl = "\r\n" if layout.get("crlf") else ("\r" if layout.get("cr") else "\n")
 
     def emit(self, text):
+        import re as _re
+
         self.out.append(text)
-        self.line += text.count("\n") if not self.layout.get("crlf") else text.count("\r\n") + text.replace("\r\n", "").count("\n")
+        self.line += len(_re.findall(r"\r\n|\r|\n", text))  # CR LF, a lone CR and a lone LF are one line break each
 
     def gap(self, allow_newline=True, must_space=False):
         style = self.layout["gaps"]
@@ -193,6 +195,7 @@ LAYOUTS = [
     {"name": "comments", "gaps": "random", "p_newline": 0.4, "comments": True, "blank_lines": True},
     {"name": "trailing-commas", "gaps": "random", "p_newline": 0.2, "trailing_commas": True},
     {"name": "crlf", "gaps": "random", "p_newline": 0.4, "crlf": True, "comments": True, "blank_lines": True},
+    {"name": "cr", "gaps": "random", "p_newline": 0.4, "cr": True, "comments": True, "blank_lines": True},
 ]
 
 
